@@ -38,7 +38,10 @@ class PrecipitateModel (PrecipitateBase):
         '''
         Resets model results
         '''
+        #_resetArrays creates default population balance models, keep the configured ones (reset leaves the model parameters)
+        PBM = self.PBM
         super().reset()
+        self.PBM = PBM
 
         for i in range(len(self.phases)):
             self.PBM[i].reset()
